@@ -14,5 +14,6 @@ for cfg in ("default", "nan_boxing", "gc_stress"):
         if fn.kind in ("Fn", "AssocFn"):
             names.add(fn.path)
 head = subprocess.run(["git", "-C", "/repo", "rev-parse", "--short", "HEAD"], capture_output=True, text=True).stdout.strip()
-json.dump({"repo_head": head, "fns": sorted(names)}, open("/verif/lyverif/pinned_fns.json", "w"), indent=0)
+S = facts.load("syn")
+json.dump({"repo_head": head, "fns": sorted(names), "syn_fns": sorted(facts.syn_fn_keys(S))}, open("/verif/lyverif/pinned_fns.json", "w"), indent=0)
 print("pinned", len(names), "functions at", head)
